@@ -37,9 +37,10 @@ structure SpecSt where
   ack : Ack             -- acknowledgement at the previous look
   expiry : Int          -- expiry requested by the operation that set it (0 = none)
   comments : List Cmt   -- acknowledgement comments at the previous look
+  inDt : Bool := false  -- a downtime is in effect (from the downtime operations)
   deriving Repr, DecidableEq
 
-def specInit : SpecSt := { state := .unknown, ack := .none, expiry := 0, comments := [] }
+def specInit : SpecSt := { state := .unknown, ack := .none, expiry := 0, comments := [], inDt := false }
 
 inductive Clause
   | stateRecorded | problemIffNotOk | expiryClears | normalCleared | stickyRecovery | stickyKept | unchangedKeeps
@@ -87,12 +88,13 @@ def first (checks : List (Bool × Clause)) : Option Clause :=
   | [] => none
   | (bad, cl) :: rest => if bad then some cl else first rest
 
-/-- Clauses every look has to satisfy: events are counted once, handled iff acknowledged problem. -/
-def common (o : Obs) (nSet nClr nAckN : Nat) : List (Bool × Clause) :=
+/-- Clauses every look has to satisfy: events are counted once; handled iff it is a problem that is acknowledged
+    (or in a downtime — C05's half of the attribute, `inDt` comes from the downtime operations). -/
+def common (o : Obs) (inDt : Bool) (nSet nClr nAckN : Nat) : List (Bool × Clause) :=
   [ (o.nSet != nSet, .setEventOnce),
     (o.nAckN != nAckN, .ackNotifyOnce),
     (o.nClr != nClr, .clearedEventOnce),
-    (o.handled != (o.problem && o.ack != .none), .handledIff) ]
+    (o.handled != (o.problem && (inDt || o.ack != .none)), .handledIff) ]
 
 /-- Check one (operation, observation) pair.  `sp` is the bookkeeping before the operation. -/
 def specStep (c : Cfg) (sp : SpecSt) (op : Op) (o : Obs) : Option Clause :=
@@ -113,14 +115,14 @@ def specStep (c : Cfg) (sp : SpecSt) (op : Op) (o : Obs) : Option Clause :=
                (a0 == .sticky && !rec_ && o.ack != .sticky, .stickyKept),
                (!sc && o.ack != a0, .unchangedKeeps),
                (o.ack != a1, .ackFrame) ] ++
-             common o 0 (c0 + c1) 0 ++
+             common o sp.inDt 0 (c0 + c1) 0 ++
              [ (o.nProbN != 0 && o.ack != .none, .problemWithheld),
                (o.comments != (if o.ack == .none then sp.comments.filter (keepsComment execEnd) else sp.comments),
                  .commentsRemoved) ])
     else
       -- a result that was not accepted changes nothing
       first ([ (ranOut sp op.now && o.ack != .none, .expiryClears),
-               (o.ack != a0, .unchangedKeeps) ] ++ common o 0 c0 0)
+               (o.ack != a0, .unchangedKeeps) ] ++ common o sp.inDt 0 c0 0)
   | .ack via sticky notify _ expiry now =>
     if o.acc then
       let e := requestedExpiry via expiry
@@ -129,20 +131,31 @@ def specStep (c : Cfg) (sp : SpecSt) (op : Op) (o : Obs) : Option Clause :=
                (a0 != .none, .refuseAcked),
                (gone && o.ack != .none, .expiryClears),
                (!gone && o.ack != ackTypeOf sticky, .ackSet) ] ++
-             common o 1 (c0 + if gone then 1 else 0) (if notify then 1 else 0))
+             common o sp.inDt 1 (c0 + if gone then 1 else 0) (if notify then 1 else 0))
     else
       first ([ (ranOut sp op.now && o.ack != .none, .expiryClears),
-               (o.ack != a0, .ackFrame) ] ++ common o 0 c0 0)
+               (o.ack != a0, .ackFrame) ] ++ common o sp.inDt 0 c0 0)
   | .remove _ _ =>
-    first ([ (o.ack != .none, .ackFrame) ] ++ common o 0 (if sp.ack != .none then 1 else 0) 0)
+    first ([ (o.ack != .none, .ackFrame) ] ++ common o sp.inDt 0 (if sp.ack != .none then 1 else 0) 0)
   | .advance _ =>
     first ([ (ranOut sp op.now && o.ack != .none, .expiryClears),
-             (o.ack != a0, .ackFrame) ] ++ common o 0 c0 0)
+             (o.ack != a0, .ackFrame) ] ++ common o sp.inDt 0 c0 0)
+  | .pump _ _ =>
+    -- the comment-expiry timer touches comments only
+    first ([ (ranOut sp op.now && o.ack != .none, .expiryClears),
+             (o.ack != a0, .ackFrame) ] ++ common o sp.inDt 0 c0 0)
+  | .downtime on _ =>
+    -- a downtime neither sets nor clears an acknowledgement
+    first ([ (ranOut sp op.now && o.ack != .none, .expiryClears),
+             (o.ack != a0, .ackFrame) ] ++ common o on 0 c0 0)
 
 /-- Bookkeeping after the look: read off the observation; the requested expiry is remembered when an
     acknowledgement is accepted and forgotten when none is set any more. -/
 def specNext (sp : SpecSt) (op : Op) (o : Obs) : SpecSt :=
   { state := o.state, ack := o.ack, comments := o.comments,
+    inDt := (match op with
+             | .downtime on _ => on
+             | _ => sp.inDt),
     expiry := if o.ack == .none then 0
               else match op with
                 | .ack via _ _ _ expiry _ => if o.acc then requestedExpiry via expiry else sp.expiry
